@@ -158,3 +158,26 @@ def c19(chk):
     chk.assumptions += ["serde_json is trusted for JSON parsing/printing",
                         "exhaustive only inside the cfg's universe (3 keys x 2 values; lists up to the cfg bound); "
                         "longer histories are seeded-random (VERIF_SEED)"]
+
+
+# ------------------------------------------------------------------------------------------------
+# C12 — StatusList2021
+# ------------------------------------------------------------------------------------------------
+
+@plan("C12")
+def c12(chk):
+    chk.rule = ("TLC enumerates every (window value, operation, argument) transition of StatusList.tla — quick: one byte, i.e. "
+                "every (byte value, bit offset, written value) triple, both purposes, plus credential-layer and validator ops; "
+                "thorough: two bytes. Each transition is replayed at 3 of 16 placements (4 list size classes x 4 byte "
+                "offsets) on real lists; result, window bits and 'all other bytes zero' are compared after decoding the "
+                "library's own encoding independently. Distinct+non-trivial = unique (purpose, pre, op) whose op changes a bit "
+                "or is refused.")
+    r = chk.mc("StatusList", "StatusList_%s.cfg" % chk.tier, workers=q(chk, 4, 12), timeout=q(chk, 300, 7000), heap=q(chk, "4g", "16g"))
+    chk.replay(r["cases_file"], timeout=7000)
+    chk.canary_cases(r["cases_file"], flip_case_expectation)
+    n_ev, n_tr = q(chk, (1500, 1), (4000, 6))
+    for drv in ("C12.list", "C12.cred"):
+        record_and_validate(chk, drv, "StatusListTrace", "StatusListTrace.cfg", n_ev, n_tr, "status_list/trace",
+                            canary=flip_ok_in_trace)
+    chk.assumptions += ["flate2 (gzip) and multibase (base64) are trusted codecs",
+                        "the window is 8 (quick) or 16 (thorough, traces) bits; other bytes are only checked to stay zero"]
